@@ -1011,7 +1011,7 @@ func elemIndexSummary(h *ssa.Function) (sliceParam, keyParam int, notFound int64
 // writes the status 404, and no body write may come before it.
 func R11DecoyStatus(c *Ctx) {
 	const rule = "R11-decoy-status"
-	c.R.Rule(rule, "in (*HTTP).fake404 every path from the entry to a return passes a call that writes the status 404 (WriteHeader/Status/Data/String/AbortWithStatus/http.Error with the constant 404, http.NotFound, or a helper of the package that does so on all its paths), and no body write (Write/WriteString on the response writer) lies on a path in front of it: a return that was reached without it answers gin's default 200", 1)
+	c.R.Rule(rule, "in (*HTTP).fake404 every path from the entry to a return passes a call that writes the status 404 (WriteHeader/Status/Data/String/AbortWithStatus/http.Error with the constant 404, http.NotFound, or a helper in this module that does so on all its paths), and no body write (Write/WriteString on the response writer) lies on a path in front of it: a return that was reached without it answers gin's default 200", 1)
 	fn := c.P.Func(PkgHandlers, "HTTP.fake404")
 	if fn == nil || fn.Blocks == nil {
 		c.R.Anchor(rule, "handlers.(*HTTP).fake404")
@@ -1033,7 +1033,7 @@ func R11DecoyStatus(c *Ctx) {
 			}
 			return false
 		}
-		if h := call.Common().StaticCallee(); h != nil && h.Blocks != nil && FuncPkgPathOf(h) == PkgHandlers && depth > 0 {
+		if h := call.Common().StaticCallee(); h != nil && h.Blocks != nil && strings.HasPrefix(FuncPkgPathOf(h), "Havoc/") && depth > 0 {
 			if _, isDefer := call.(*ssa.Defer); isDefer {
 				return false
 			}
